@@ -73,18 +73,6 @@ theorem new_eq (c : PduConfig) (cond : Int) (dc fs : Nat) (rs : List FileStoreRe
   by_cases h2 : c.source.width = c.dest.width
   · have g : ¬ (65535 < 1 + 1 ∨ c.source.width ≠ c.dest.width) := by omega
     rw [if_neg g, bind_ok]
-    have key : ∀ fd0 : FileDirective, fd0.header.conf.crcFlag = c.crcFlag →
-        ((match fl with
-          | some _ => calcLen fd0 cond rs fl
-          | none => pure fd0) >>= fun fd => calcLen fd cond rs fl) = calcLen fd0 cond rs fl := by
-      intro fd0 _
-      cases fl with
-      | none => rfl
-      | some t =>
-        show (calcLen fd0 cond rs (some t) >>= fun fd => calcLen fd cond rs (some t)) = _
-        rw [calcLen_twice, calcLen_eq']
-        split <;> rfl
-    have := key ⟨⟨0, 0, 1 + 1, { c with direction := 1 }⟩, 5⟩ rfl
     by_cases h3 : 65535 < finParamLen c.crcFlag cond rs fl + 1
     · rw [if_pos (Or.inr h3)]
       cases fl with
